@@ -105,6 +105,11 @@ impl Prop for C13 {
                         0,
                     )
                 });
+                for d in &case.project.files[obs].decls {
+                    if d.name.len() >= 2 {
+                        qualified_refs.push(d.name.clone());
+                    }
+                }
                 qualified_refs.retain(|n| {
                     let key = n.join(".");
                     !obs_imports.contains(&key) && !case.keys.contains_key(&key) && !key.starts_with("android.") && !key.starts_with("java.")
